@@ -28,9 +28,14 @@ def load_known():
 
 
 def match_known(known, prop, clause, signature):
+  """a finding is identified by property + obligation (fnmatch pattern) + a regex over the witness signature
+  (call site / entry case / failing input); anything else of the same property is still reported"""
+  import fnmatch
+  import re
   for k in known.get('known', []):
-    if k['property'] == prop and k['obligation'] == clause and (k.get('signature') in (None, signature) or
-                                                                (k.get('signature') and signature and k['signature'] in signature)):
+    if k['property'] != prop or not re.fullmatch(k['obligation_regex'], clause):
+      continue
+    if re.search(k['signature_regex'], signature or ''):
       return k
   return None
 
@@ -60,6 +65,7 @@ def main():
   units = C.UNITS.get(prop, [])
   known = load_known()
   prog = Program()
+  known_obls = 0
   violations = []          # (clause, payload)
   known_hits = []
   undecided = []
@@ -94,7 +100,7 @@ def main():
     if c['status'] == 'discharged':
       continue
     fail = c['fails'][0]
-    sig = fail.get('info', {}).get('info') or fail.get('info', {}).get('where') or ''
+    sig = ' | '.join(str(f.get('info', {}).get('info') or f.get('info', {}).get('where') or '') for f in c['fails'])
     payload = dict(property=prop, obligation=cid, status=c['status'], solver_output=fail, tree=prog.tree_hash(),
                    failing_input=None)
     # replay: ask the stand-in harness for a concrete failing input of this clause on the REAL code
@@ -112,6 +118,7 @@ def main():
     k = match_known(known, prop, cid, str(sig))
     if k is not None:
       known_hits.append((k, cid))
+      known_obls += len(c['fails'])
       continue
     if c['status'] == 'unknown' and payload['failing_input'] is None:
       undecided.append((cid, 'solver returned unknown (%s) and no failing input was found' % fail.get('reason')))
@@ -138,7 +145,7 @@ def main():
   # ---- report ---------------------------------------------------------------------------------------
   seen_known = set()
   for k, cid in known_hits:
-    key = (k['property'], k['obligation'], k.get('signature'))
+    key = (k['property'], k['id'])
     if key in seen_known:
       continue
     seen_known.add(key)
@@ -173,7 +180,8 @@ def main():
       samples.append(dict(obligation=o['id'], kind=o['kind'], status=o['status'], backend=o['backend'], seconds=o['seconds']))
   samples = samples[:25]
   cov = dict(
-      obligations=n_obl, discharged=n_dis,
+      obligations=n_obl - known_obls, discharged=n_dis,
+      obligations_matching_known_findings=known_obls,
       clauses=len(clauses), clauses_discharged=sum(1 for c in clauses.values() if c['status'] == 'discharged'),
       units=len(units), units_undecided=len([u for u in results if u['undecided']]),
       checker_cmd='./verif.sh check %s --tier %s' % (prop, tier),
